@@ -204,7 +204,13 @@ def run(chk, replay=None):
     chk.proof_leg(["Serde/SerdeCheck.vo", "Gen/SerdeShapeGen.vo", "Serde/JsonTextCheck.vo"], "Properties/C18.v",
                    ["Serde/SerdeGeneric_proofs.v", "Serde/JsonText_proofs.v"], "Properties.C18")
     chk.assumptions += [
-        "text layers (serde_json and serde_yaml printers/parsers, Rust float printing/parsing, textwrap::dedent) are third-party code outside the model: exercised by the correspondence run only (partial)",
+        "JSON text layer: serde_json's pretty printer and parser and textwrap::dedent are MODELLED (coq/Serde/JsonText.v) and the model is compared with the implementation on every run "
+        "(text byte for byte, both readers, damaged texts, dedent through a TOML probe); the theorems C18_json_* are about that model",
+        "float pair hypothesis float_pair_ok (the token ryu prints for a double is a JSON number with a fraction or exponent, and serde_json's number parser returns the same bits from it) is a "
+        "hypothesis of every C18_json_* theorem about values with doubles; it is discharged NOWHERE (ryu and serde_json's lexical/float code are third-party and not modelled), only tested per generated double "
+        "by the correspondence run; it is false for serde_json built without the feature float_roundtrip (repository commit b30a5a8 enables it)",
+        "the layering parse-to-a-value-tree then derive(Deserialize) on the tree (json_from_str_ty) stands for serde's streaming deserialisation; tied by comparing from_str::<T> with the model on every generated library",
+        "YAML text layer (serde_yaml / yaml-rust emitter and scanner) is third-party code outside the model: exercised by the correspondence run only (partial)",
         "serde_derive follows the rules stated at the top of coq/Serde/SerdeGeneric.v (validated by comparing serde_json::to_value of every generated value with the model's ser)",
         "values of rust_decimal::Decimal and char are treated as opaque strings at the data-model level",
     ]
@@ -472,7 +478,7 @@ def json_text_leg(chk, shapes, cases, hcases, text_replay):
                 if c["ty"] == ty and k < nlib:
                     tcases.append({"leg": "jsontext", "kind": "lib", "ty": ty, "v": c["v"], "val": h["val"]})
                     k += 1
-        for i in range(500 if quick else 12000):
+        for i in range(400 if quick else 12000):
             j = gen_sval(rng, rng.choice([1, 2, 3, 4, 6]))
             w = rng.choice([0] * 12 + [1, 2, 3, 5, 9])
             tcases.append({"leg": "jsontext", "kind": "any", "val": j, "wrap": w})
@@ -495,7 +501,7 @@ def json_text_leg(chk, shapes, cases, hcases, text_replay):
         # parser against parser on damaged texts: edits of printed texts (float-free and with floats), and hand-written ones
         pool = [r["text"].encode("utf8") for c, r in zip(tcases, res) if c["kind"] == "any" and "text" in r and len(r["text"]) < 1500]
         extra = [{"leg": "jsontext", "kind": "text", "hex": t.hex()} for t in HAND_TEXTS]
-        for i in range(700 if quick else 20000):
+        for i in range(600 if quick else 20000):
             if pool:
                 extra.append({"leg": "jsontext", "kind": "text", "hex": mutate_text(rng, rng.choice(pool)).hex()})
         tcases += extra
@@ -523,10 +529,11 @@ def json_text_leg(chk, shapes, cases, hcases, text_replay):
     order = sorted(range(len(items)), key=lambda k: -len(items[k]))
     nsh = 16
     perm = [k for s0 in range(nsh) for k in order[s0::nsh]]
-    out = coq_eval_lists(hdr, [items[k] for k in perm], chk.rundir, "c18j", shard=max(1, (len(items) + nsh - 1) // nsh))
+    ditems, dfinish = dedent_leg(chk, text_replay)
+    out = coq_eval_lists(hdr, [items[k] for k in perm] + ditems, chk.rundir, "c18j", shard=max(1, (len(items) + len(ditems) + nsh - 1) // nsh))
     for k, s in zip(perm, out):
         codes[idx[k]] = parse_z(s)
-    dedent_leg(chk, text_replay)
+    dfinish(out[len(perm):])
     kinds = {k: sum(1 for c in tcases if c["kind"] == k) for k in ("lib", "any", "text")}
     accepted = sum(1 for c, r in zip(tcases, res) if c["kind"] == "text" and isinstance(r.get("open"), dict) and "ok" in r["open"])
     nfloat = sum(len(r.get("fmt", [])) for r in res)
@@ -597,11 +604,11 @@ def dedent_leg(chk, text_replay):
                 else: l = rng.choice(DEDENT_INDENTS) + rng.choice(DEDENT_BODIES)
                 if rng.random() < 0.1: l += "\r"
                 lines.append(l)
-            first = rng.choice(["  ", "    ", "", "\t", base])
+            first = rng.choice(["  ", "    ", "", "\t", " \t", "      "])
             doc = first + "x = " + TQ + "\n" + "\n".join(lines) + "\n" + rng.choice(["", "  ", base, "\t"]) + TQ + rng.choice(["", "\n", "\n\n", "\n  "])
             dcases.append({"leg": "jsontext", "kind": "dedent", "hex": doc.encode("utf8").hex()})
     if not dcases:
-        return
+        return [], lambda out: None
     res = harness("c18", [{"ty": "dedent", "hex": c["hex"]} for c in dcases])
     items, idx = [], []
     for i, (c, r) in enumerate(zip(dcases, res)):
@@ -609,9 +616,9 @@ def dedent_leg(chk, text_replay):
         if isinstance(x, str) and len(r["ok"]) == 1:
             items.append(capp("dedent_check", hexb(bytes.fromhex(c["hex"])), hexb(x.encode("utf8"))))
             idx.append(i)
-    hdr = ("From Coq Require Import ZArith List String Uint63.\nImport ListNotations.\n"
-           "From L21 Require Import Serde.SerdeGeneric Serde.SerdeCheck Serde.JsonText Serde.JsonTextCheck.\nOpen Scope Z_scope.\n")
-    out = coq_eval_lists(hdr, items, chk.rundir, "c18d", shard=max(1, (len(items) + 7) // 8)) if items else []
+    return items, lambda out: dedent_finish(chk, dcases, res, idx, out)
+
+def dedent_finish(chk, dcases, res, idx, out):
     codes = [parse_z(s) for s in out]
     chk.cov["evaluations"] += len(dcases)
     chk.cov["distinct_nontrivial"] += len({dcases[i]["hex"] for i in idx})
